@@ -141,3 +141,35 @@ def impl_fn(prog, self_ty, trait_ref_part, fn_name):
                 if it["name"] == fn_name:
                     return it["path"]
     return None
+
+
+def guards_of(prog, body, bb, tb=None):
+    """Branch conditions that must hold to reach block `bb`: for every switch block dominating bb of which exactly one
+    kind of edge (zero / non-zero, or one discriminant value) leads to bb without using a loop back-edge.
+    Returns a list of (condition term, taken) with taken = True/False for boolean switches or the case value."""
+    tb = tb or TermBuilder(prog, body)
+    dom = cfg.dominators(body)
+    bes = cfg.back_edges(body)
+    out = []
+    if bb not in dom:
+        return out
+    for d in sorted(dom[bb]):
+        if d == bb:
+            continue
+        t = body.term(d)
+        if t["k"] != "switch":
+            continue
+        cond = tb.operand(t["discr"])
+        targets = [(c[0], c[1]) for c in t["cases"]] + [("else", t["otherwise"])]
+        reach = [(v, tgt) for v, tgt in targets if bb in cfg.reachable(body, [tgt], avoid_edges=bes) or tgt == bb]
+        if len({tgt for _, tgt in reach}) != 1 or len(reach) == len(targets):
+            continue
+        v = reach[0][0]
+        if t.get("discr_ty") == "bool":
+            out.append((cond, v != 0 if v != "else" else True))
+        else:
+            if v == "else":
+                out.append((cond, ("else", tuple(c[0] for c in t["cases"]))))
+            else:
+                out.append((cond, v))
+    return out
